@@ -155,12 +155,12 @@ Qed.
 (* ---------- add_edge ---------- *)
 (* what add_edge stores, and when it accepts *)
 Definition edge_norm (k : gio_kind) (e : Z * Z) : Z * Z :=
-  match k with KSimple => (Z.min (fst e) (snd e), Z.max (fst e) (snd e)) | _ => e end.
+  match k with GioSimple => (Z.min (fst e) (snd e), Z.max (fst e) (snd e)) | _ => e end.
 Definition edge_ok (G : iograph) (e : Z * Z) : Prop :=
   match io_kind G with
-  | KSimple => 1 <= fst e <= io_n G /\ 1 <= snd e <= io_n G /\ fst e <> snd e
-  | KDirected => 1 <= fst e <= io_n G /\ 1 <= snd e <= io_n G
-  | KBipartite => 1 <= fst e <= io_n G /\ 1 <= snd e <= io_r G
+  | GioSimple => 1 <= fst e <= io_n G /\ 1 <= snd e <= io_n G /\ fst e <> snd e
+  | GioDirected => 1 <= fst e <= io_n G /\ 1 <= snd e <= io_n G
+  | GioBipartite => 1 <= fst e <= io_n G /\ 1 <= snd e <= io_r G
   end.
 
 Lemma add_edge_ok G u v : edge_ok G (u, v) ->
@@ -235,12 +235,12 @@ Qed.
 (* ---------- well-formed graph objects ---------- *)
 Definition edge_stored_ok (G : iograph) (e : Z * Z) : Prop :=
   match io_kind G with
-  | KSimple => 1 <= fst e /\ fst e < snd e /\ snd e <= io_n G
-  | KDirected => 1 <= fst e <= io_n G /\ 1 <= snd e <= io_n G
-  | KBipartite => 1 <= fst e <= io_n G /\ 1 <= snd e <= io_r G
+  | GioSimple => 1 <= fst e /\ fst e < snd e /\ snd e <= io_n G
+  | GioDirected => 1 <= fst e <= io_n G /\ 1 <= snd e <= io_n G
+  | GioBipartite => 1 <= fst e <= io_n G /\ 1 <= snd e <= io_r G
   end.
 Definition gio_wf (G : iograph) : Prop :=
-  0 <= io_n G /\ 0 <= io_r G /\ (io_kind G <> KBipartite -> io_r G = 0) /\
+  0 <= io_n G /\ 0 <= io_r G /\ (io_kind G <> GioBipartite -> io_r G = 0) /\
   ssorted (io_edges G) /\ Forall (edge_stored_ok G) (io_edges G).
 
 Lemma edge_norm_stored G e : edge_ok G e -> edge_stored_ok G (edge_norm (io_kind G) e).
